@@ -79,6 +79,20 @@ class KEval(Evaluator):
             raise NotEvaluable('isinstance %s' % name)
         return isinstance(val, py)
 
+    def op_inst(self, cref, oid, fields):
+        g = Evaluator.op_inst(self, cref, oid, fields)
+        d = {kv.items[0].v: kv.items[1] for kv in fields.items}
+        ci = getattr(cref, 'ci', None)
+        if LABELS[0] in d and S0F[0] in d and isinstance(g, CG):
+            # an instance assembled field by field (object.__new__ + stores)
+            lab = self.ev(d[LABELS[0]])
+            s0 = self.ev(d[S0F[0]])
+            if not isinstance(lab, dict):
+                raise NotEvaluable('labels field is %r' % (lab,))
+            return KS(g, frozenset(s0), {k: frozenset(v)
+                                         for k, v in lab.items()})
+        return g
+
     def op_mkkripke4(self, S, S0, R, L):
         vals = [self.ev(x) for x in (S, S0, R, L)]
         if isinstance(vals[0], CG):
@@ -488,6 +502,12 @@ def run(prog, tier, seed):
     T = Attempts()
     results = T.results(T(rule_k1, prog, adj), T(rule_k3, prog, adj),
                         T(rule_k4, prog, adj))
+    # the constructor stores states and transitions through DiGraph and
+    # decides totality from nodes() / sources(): they must be exact
+    from ..report import adopt
+    from . import c13
+    results = results + adopt(T.results(T(c13.rule_g0, prog, adj)), PROP,
+                              'the graph layer the totality test reads')
     expl = ('Kripke is interpreted abstractly on top of the DiGraph '
             'primitives verified under C13. R-K-1: the constructor is '
             'summarised (paths with their conditions, resulting fields) and '
